@@ -75,8 +75,42 @@ func pathDocs() []func() jsonline.Row {
 var pathKeys = []string{"a", "b", "c", "d", "e", "f", "g", "h", "s", "n", "", "arr", "k", "v", "x", "deep", "l1", "l2", "l3", "l4", "l5", "m", "p", "q", "r", "w", "t", "zz"}
 
 func emitPath(cw *caseWriter, mk func() jsonline.Row, op, path string, val func() interface{}) {
+	emitPathAs(cw, mk, nil, op, path, val)
+}
+
+// emitPathAs: with `intended` set, the operation runs on the row `mk` builds, while the document handed to the model
+// and to the oracle is the row `intended` builds — the row a sequence of stores is MEANT to leave (each key holding
+// what was stored under it last), reached in `mk` through a longer history of the same row.
+func emitPathAs(cw *caseWriter, mk func() jsonline.Row, intended func() jsonline.Row, op, path string, val func() interface{}) {
 	row := mk()
 	before := valStr(row)
+	if intended != nil {
+		// judged against the PRINTED intended document: what is found, printed, must be what key-by-key navigation
+		// of that document finds (representation — a row held bare or inside an Auto cell — does not matter there)
+		if op != "get" {
+			return
+		}
+		var doc, obs string
+		if p := guard(func() {
+			doc = intended().String()
+			v, ok := row.GetValueAtPath(path)
+			switch {
+			case !ok:
+				obs = "absent"
+			default:
+				if b, err := v.MarshalJSON(); err == nil {
+					obs = "found " + hxs(string(b))
+				} else {
+					obs = "unprintable"
+				}
+			}
+		}); p != "" {
+			obs = "panic " + strings.ReplaceAll(strings.ReplaceAll(p, "\t", " "), "\n", " ")
+		}
+		cw.count("pathdoc-intended:" + strings.SplitN(obs, " ", 2)[0])
+		cw.emit("pathdoc intended "+doc+" "+path, true, "pathdoc", "C18", hxs(doc), hxs(path), obs)
+		return
+	}
 	var impl string
 	valS := "-"
 	ext := map[string]string{}
@@ -120,7 +154,7 @@ func emitPath(cw *caseWriter, mk func() jsonline.Row, op, path string, val func(
 	}
 	cw.count("path:" + op)
 	cw.emit("path "+before+" "+op+" "+path+" "+valS, true, "path", "C18", before, op, hxs(path), valS, extStr(ext), impl)
-	if op == "get" && pan == "" && !strings.Contains(" "+before, " M") {
+	if op == "get" && pan == "" && intended == nil && !strings.Contains(" "+before, " M") {
 		// the same lookup against the document as the row PRINTS it (rows holding Go maps apart: a Go map is printed
 		// as an object but is not a row one can navigate key by key)
 		var doc, obs string
@@ -175,6 +209,58 @@ func genC18(cw *caseWriter, seed uint64, tier string) {
 				emitPath(cw, mk, "find", k1+"."+k2, nil)
 			}
 		}
+	}
+	// a document BUILT key by key in which every key is stored twice: first something else (an object of another shape,
+	// a scalar, a null, a Go map, an array), then what it is meant to hold — "lookups return the most recently stored
+	// value": paths must find what key-by-key navigation of the intended document finds, nothing of what was replaced
+	storeCount := 0
+	twice := func(kv ...interface{}) jsonline.Row {
+		rr := jsonline.NewRow()
+		for i := 0; i+1 < len(kv); i += 2 {
+			storeCount++
+			old := jsonline.NewRow()
+			old.Set("old", 1)
+			gone := jsonline.NewRow()
+			gone.Set("x", json.Number("2"))
+			gone.Set("c", "stale")
+			old.Set("b", gone)
+			old.Set("k", gone)
+			switch storeCount % 6 {
+			case 0:
+				rr.Set(kv[i].(string), old)
+			case 1:
+				rr.Set(kv[i].(string), "placeholder")
+			case 2:
+				rr.Set(kv[i].(string), nil)
+			case 3:
+				rr.Set(kv[i].(string), map[string]interface{}{"b": map[string]interface{}{"c": 0}})
+			case 4:
+				rr.Set(kv[i].(string), []interface{}{old})
+			default:
+				rr.SetValue(kv[i].(string), jsonline.NewValueAuto(old))
+			}
+			rr.Set(kv[i].(string), kv[i+1])
+		}
+		return rr
+	}
+	once := func(kv ...interface{}) jsonline.Row {
+		rr := jsonline.NewRow()
+		for i := 0; i+1 < len(kv); i += 2 {
+			rr.Set(kv[i].(string), kv[i+1])
+		}
+		return rr
+	}
+	builtDoc := func(sub func(kv ...interface{}) jsonline.Row) func() jsonline.Row {
+		return func() jsonline.Row {
+			return sub("a", sub("b", sub("c", json.Number("1"), "d", nil), "e", []interface{}{sub("f", json.Number("1"), "g", sub("h", json.Number("2"))), sub("f", json.Number("2")), json.Number("3")}),
+				"s", json.Number("1"), "n", nil, "", sub("", json.Number("5")),
+				"arr", []interface{}{sub("k", sub("v", json.Number("1"))), sub("k", json.Number("3"))},
+				"deep", sub("l1", sub("l2", sub("l3", "bottom"))))
+		}
+	}
+	for _, p := range append(append([]string{}, hand...), "a.b.x", "a.b.c.stale", "a.old", "a.b.c", "arr.k.x", "deep.l1.old", "s.old", "n.b.c", ".old", "a.k", "deep.b.c") {
+		emitPathAs(cw, builtDoc(twice), builtDoc(once), "get", p, nil)
+		emitPathAs(cw, builtDoc(twice), builtDoc(once), "find", p, nil)
 	}
 	n := 3000
 	if tier == "thorough" {
